@@ -1,8 +1,15 @@
-From V Require Import model.Base model.Conc model.Events model.SpscQueue.
+From V Require Import model.Base model.Conc model.Events model.SpscQueue model.OverflowQueue.
 Require Extraction.
 Require Import ExtrOcamlBasic.
 Extraction Language OCaml.
 Definition spsc_step1 := Conc.step1 SpscQueue.step.
 Definition spsc_init := SpscQueue.init.
 Definition spsc_content := SpscQueue.content.
-Extraction "../ocaml/c03/model.ml" spsc_step1 spsc_init spsc_content N.of_nat N.to_nat.
+Definition spsc_push (v : N) := SpscQueue.OPush v.
+Definition spsc_ops := (SpscQueue.OAcqP, SpscQueue.ORelP, SpscQueue.OAcqC, SpscQueue.ORelC, SpscQueue.OPop).
+Definition oq_step1 := Conc.step1 OverflowQueue.step.
+Definition oq_init := OverflowQueue.init.
+Definition oq_content := OverflowQueue.content.
+Definition oq_push (v : N) := OverflowQueue.OPush v.
+Definition oq_ops := (OverflowQueue.OAcqP, OverflowQueue.ORelP, OverflowQueue.OAcqC, OverflowQueue.ORelC, OverflowQueue.OPop).
+Extraction "../ocaml/c03/model.ml" spsc_step1 spsc_init spsc_content spsc_push spsc_ops oq_step1 oq_init oq_content oq_push oq_ops N.of_nat N.to_nat.
